@@ -189,7 +189,7 @@ def finish(mod, prop, tier, seed, specs, outs, wall):
         if s is None:
             continue
         for k in ('obligations', 'discharged', 'undecided', 'core_undecided', 'twins', 'twins_ok',
-                  'sat_expected', 'queries', 'diffed', 'programs'):
+                  'sat_expected', 'queries', 'diffed', 'diffed_cvc5', 'cvc5_errors', 'programs'):
             setattr(agg, k, getattr(agg, k) + getattr(s, k))
         for k, v in s.solver_time.items():
             agg.solver_time[k] = agg.solver_time.get(k, 0.0) + v
@@ -236,6 +236,8 @@ def finish(mod, prop, tier, seed, specs, outs, wall):
         reachability_twins_sat=agg.twins_ok,
         solver_queries=agg.queries,
         second_solver_diffs=agg.diffed,
+        third_solver_diffs_cvc5=agg.diffed_cvc5,
+        third_solver_inconclusive_cvc5=agg.cvc5_errors,
         solver_time_s={k: round(v, 3) for k, v in agg.solver_time.items()},
         max_query_s=round(agg.max_query_s, 3),
         obligation_kinds=agg.kinds,
